@@ -1,6 +1,6 @@
 """C08 Reported lines are playable and mate announcements are true."""
 import os, json
-import vlib, games, searches
+import vlib, games, searches, nodes
 
 
 def main():
@@ -50,10 +50,20 @@ def main():
                       replay={"kind": "search-event", "events": d["_file"], "line": d.get("at")})
     if stats["mates"] == 0:
         raise vlib.ToolError("no mate announcement observed: vacuous")
+    # node level: every step of every node of recorded searches replayed by Trace_Nodes.tla (lines are the move just
+    # searched plus the line of the child that scored; mate / stalemate only without legal moves; reported lines are root lines)
+    nv, ndrift, nstat = nodes.node_phase(chk, ("C08",), mates, draws, roots + walkp,
+                                         n_mates=40 if q else 400, n_draws=20 if q else 200, n_pool=20 if q else 200)
+    for w, what, det, ef in nv:
+        chk.violation(w, what, det, replay={"kind": "node-trace", "trace": ef, "line": det["report"].get("at"),
+                                            "how": "harness `nodes <jobs> <out>` on the session of the named root; Trace_Nodes.tla on <out>"})
+    chk.drift += ndrift
+    if nstat["counts"].get("P", 0) == 0 or nstat["counts"].get("Z", 0) == 0:
+        raise vlib.ToolError("vacuous node traces: %s" % nstat)
     chk.cov.update({
         "states": stats["infos"], "transitions": stats["infos"], "traces_validated_against_impl": len(files),
         "evaluations": stats["infos"], "distinct_nontrivial": stats["mates"],
-        "search_stats": stats, "generated_mate_positions": len(mates), "generated_draw_positions": len(draws), "of_which_mate_in_one": len(m1),
+        "search_stats": stats, "node_traces": nstat, "generated_mate_positions": len(mates), "generated_draw_positions": len(draws), "of_which_mate_in_one": len(m1),
         "rule": "every info line of every iteration: the line is replayed move by move through the rule book (each move must be legal where "
                 "it is played), depths 1,2,3,... within the limit, and every 'mate n' is verified: line length 2n-1 (or 2|n|) and the final "
                 "position is checkmate of the announced side. Positions: TLC-generated elementary endings near mate (fresh table and after a "
